@@ -292,7 +292,7 @@ def mutate_value(
             if attr in used_attrs:
                 continue
             if attr_value is not MISSING:
-                setattr(value, attr, attr_value)
+                _setattr_mutate_safe(value, attr, attr_value, inplace=inplace)
     elif attrs:
         raise ValueError("Cannot use attrs on a missing value without a constructor.")
 
@@ -307,9 +307,26 @@ def mutate_value(
         for attr, attr_transform in attr_transforms.items():
             transformed_value = attr_transform(getattr(value, attr, MISSING))
             if transformed_value is not MISSING:
-                setattr(value, attr, transformed_value)
+                _setattr_mutate_safe(value, attr, transformed_value, inplace=inplace)
 
     return value
+
+
+def _setattr_mutate_safe(value: Any, attr: str, attr_value: Any, inplace: bool):
+    """
+    Set an attribute on a value that `mutate_value` has made mutate-safe. Unless
+    the caller asked for in-place mutation, `value` is then a private copy (or
+    freshly constructed), and so may be written to even if it is an instance
+    of a frozen spec-class.
+    """
+    if (
+        not inplace
+        and getattr(value, "__spec_class__", None)
+        and hasattr(value.__setattr__, "__raw__")
+    ):
+        value.__setattr__(attr, attr_value, force=True)
+    else:
+        setattr(value, attr, attr_value)
 
 
 def prepare_attr_value(
